@@ -172,3 +172,87 @@
         let q = Q as int;
         assert(k == 0) by (nonlinear_arith) requires a - b % q == k * q, 0 <= a < q, 0 <= b % q < q, q == 8_380_417;
     }
+    // ---- matrix-vector product in the NTT domain (Algorithm 48 with Algorithm 45 coefficient-wise): sum over the first j columns
+    pub open spec fn dotp<const K: usize, const L: usize>(a: [[T; L]; K], u: [T; L], i: int, n: int, j: int) -> int
+        decreases j
+    {
+        if j <= 0 { 0 } else { dotp(a, u, i, n, j - 1) + (a[i][j - 1].0[n] as int) * (u[j - 1].0[n] as int) }
+    }
+    // ---- the inverse transform only depends on the residue classes of its input
+    pub open spec fn seq_cong(a: Seq<int>, b: Seq<int>) -> bool {
+        a.len() == 256 && b.len() == 256 && forall|i: int| 0 <= i < 256 ==> cong(#[trigger] a[i], b[i])
+    }
+    pub proof fn lemma_cong_same_mod(x: int, y: int)
+        requires cong(x, y),
+        ensures x % (Q as int) == y % (Q as int),
+    {
+        lemma_cong_mod(x);
+        lemma_cong_trans(x % (Q as int), x, y);
+        lemma_cong_canonical(x % (Q as int), y);
+    }
+    pub proof fn lemma_intt_j_loop_cong(a: Seq<int>, b: Seq<int>, z: int, start: int, len: int, j: int)
+        requires seq_cong(a, b), 0 <= start <= j, start + 2 * len <= 256, len >= 0,
+        ensures seq_cong(intt_j_loop(a, z, start, len, j), intt_j_loop(b, z, start, len, j)),
+        decreases start + len - j
+    {
+        if j < start + len {
+            let a2 = a.update(j, a[j] + a[j + len]).update(j + len, z * (a[j] - a[j + len]));
+            let b2 = b.update(j, b[j] + b[j + len]).update(j + len, z * (b[j] - b[j + len]));
+            lemma_cong_add(a[j], b[j], a[j + len], b[j + len]);
+            lemma_cong_refl(z);
+            lemma_cong_mul(z, z, a[j] - a[j + len], b[j] - b[j + len]);
+            assert forall|i: int| 0 <= i < 256 implies cong(#[trigger] a2[i], b2[i]) by {
+                if i == j { } else if i == j + len { } else { assert(a2[i] == a[i] && b2[i] == b[i]); }
+            }
+            lemma_intt_j_loop_cong(a2, b2, z, start, len, j + 1);
+        }
+    }
+    pub proof fn lemma_intt_start_loop_cong(a: Seq<int>, b: Seq<int>, len: int, m: int, start: int)
+        requires seq_cong(a, b), start >= 0, len >= 1, len <= 128, (256 - start) % (2 * len) == 0 || start >= 256,
+        ensures seq_cong(intt_start_loop(a, len, m, start), intt_start_loop(b, len, m, start)),
+        decreases 512 - start
+    {
+        if start < 256 {
+            let z = -zeta_brv(m - 1);
+            assert(start + 2 * len <= 256) by {
+                lemma_fundamental_div_mod(256 - start, 2 * len);
+                let kq = (256 - start) / (2 * len);
+                assert(256 - start == (2 * len) * kq);
+                assert(kq >= 1) by (nonlinear_arith) requires 256 - start == (2 * len) * kq, 256 - start > 0, len >= 1;
+                assert((2 * len) * kq >= 2 * len) by (nonlinear_arith) requires kq >= 1, len >= 1;
+            }
+            lemma_intt_j_loop_cong(a, b, z, start, len, start);
+            lemma_intt_j_loop_len(a, z, start, len, start);
+            lemma_intt_j_loop_len(b, z, start, len, start);
+            assert((256 - (start + 2 * len)) % (2 * len) == 0 || start + 2 * len >= 256) by {
+                lemma_mod_sub_multiples_vanish(256 - start, 2 * len);
+            }
+            lemma_intt_start_loop_cong(intt_j_loop(a, z, start, len, start), intt_j_loop(b, z, start, len, start), len, m - 1, start + 2 * len);
+        }
+    }
+    pub proof fn lemma_intt_layers_cong(a: Seq<int>, b: Seq<int>, k: int)
+        requires seq_cong(a, b), 0 <= k <= 8,
+        ensures seq_cong(intt_layers(a, k), intt_layers(b, k)),
+        decreases 8 - k
+    {
+        if k < 8 {
+            let len = intt_len(k);
+            if k == 0 { assert(len == 1); assert(256int % 2 == 0); } if k == 1 { assert(len == 2); assert(256int % 4 == 0); } if k == 2 { assert(len == 4); assert(256int % 8 == 0); } if k == 3 { assert(len == 8); assert(256int % 16 == 0); } if k == 4 { assert(len == 16); assert(256int % 32 == 0); } if k == 5 { assert(len == 32); assert(256int % 64 == 0); } if k == 6 { assert(len == 64); assert(256int % 128 == 0); } if k == 7 { assert(len == 128); assert(256int % 256 == 0); }
+            assert((256 - 0) % (2 * len) == 0);
+            lemma_intt_start_loop_cong(a, b, len, intt_m0(k), 0);
+            lemma_intt_layers_cong(intt_start_loop(a, len, intt_m0(k), 0), intt_start_loop(b, len, intt_m0(k), 0), k + 1);
+        }
+    }
+    pub proof fn lemma_invntt_cong(a: Seq<int>, b: Seq<int>)
+        requires seq_cong(a, b),
+        ensures spec_invntt(a) == spec_invntt(b),
+    {
+        lemma_intt_layers_cong(a, b, 0);
+        let va = intt_layers(a, 0); let vb = intt_layers(b, 0);
+        assert forall|i: int| 0 <= i < 256 implies (8_347_681 * va[i]) % (Q as int) == (8_347_681 * vb[i]) % (Q as int) by {
+            lemma_cong_refl(8_347_681);
+            lemma_cong_mul(8_347_681, 8_347_681, va[i], vb[i]);
+            lemma_cong_same_mod(8_347_681 * va[i], 8_347_681 * vb[i]);
+        }
+        assert(spec_invntt(a) =~= spec_invntt(b));
+    }
